@@ -313,10 +313,12 @@ def UD.onCommit (ops : DeeOps D) (st : Style) (u : UD D) (segs : List Seg) (now 
 /-- `Memory::OnDeleteEntry` on a recognized candidate: `UpdateEntry(entry, -1)` (no transaction is opened) -/
 def UD.onDelete (ops : DeeOps D) (u : UD D) (e : Entry) : UD D := u.updateEntry ops e.key (-1)
 
-/-- translator `Query`: `FinishSession()`; the script translator's `Lookup` then re-reads the tick count -/
-def UD.onQuery (st : Style) (u : UD D) : UD D :=
+/-- translator `Query`: `FinishSession()`; the script translator's `UserDictionary::Lookup` then re-reads the
+tick count — unless it returns early because the syllabifier interpreted nothing of the input (`lookup = false`);
+the table translator's `LookupWords` never re-reads it -/
+def UD.onQuery (st : Style) (u : UD D) (lookup : Bool) : UD D :=
   match st with
-  | Style.script => u.commitPending.fetchTick
+  | Style.script => if lookup then u.commitPending.fetchTick else u.commitPending
   | Style.table => u.commitPending
 
 /-! ## lookup: `CreateDictEntry` and the candidate lists -/
